@@ -51,6 +51,7 @@ const S4_BOUNDS: &str = "1-4 client threads, <= 8 operations, <= 4 in flight, <=
 pub const PROPS: &[PropInfo] = &[
     PropInfo { id: "C08", subsystem: "s4", runs: (30_000, 3_000_000), rule: "one case = one concurrent history produced by a seeded schedule of simulated clients against a (possibly faulty) simulated object, fed event by event to the real tester; invoke/return events are stamped with their global sequence number; distinct = distinct (spec, initial value, event list); non-trivial = >= 3 events", oracle: "after every event: is_consistent() == exhaustive search of the definition (all orders of the completed operations plus any subset of in-flight ones, per-thread order, real-time precedence, legal for the spec); serialized_history() is such an order; ill-formed events give Err and stay Err/false/None", real: S4_REAL, stub: S4_STUB, bounds: S4_BOUNDS },
     PropInfo { id: "C14", subsystem: "s4", runs: (30_000, 3_000_000), rule: "as C08, both testers fed the same events", oracle: "as C08 without the real-time filter; every prefix accepted by the linearizability tester is accepted by the sequential-consistency tester; a clone taken before each event is unchanged after the original moved on", real: S4_REAL, stub: S4_STUB, bounds: S4_BOUNDS },
+    PropInfo { id: "C17", subsystem: "s3", runs: (3_000, 300_000), rule: "one case = 1-4 instrumented script actors run by the real actor::spawn() loop (one simulation thread each) on virtual UDP sockets bound to seeded IPv4 addresses, under the scheduler and the virtual clock, with per-run rates of datagram drop, duplication, delay/reordering, send and receive errors, junk / empty / foreign datagrams injected by an outside peer, stalls; distinct = distinct hash of scheduling decisions and hook events; non-trivial = at least two handler invocations", oracle: "merged handler log vs socket-seam log: on_start first and once; every on_msg matches (injectively) a datagram already delivered to that socket with the deserialized payload and Id::from(sender address); sends of a handler appear on its socket in order before its next handler; a timer fires only while armed and no earlier than arming + range.start; state threading; Id <-> SocketAddrV4 round trips", real: &["actor::spawn() event loop, on_command, timer bookkeeping (next_interrupts)", "Id <-> SocketAddrV4 conversions", "serde_json codec through the serialize/deserialize fn pointers", "crossbeam scoped actor threads (real threads, scheduled by the baton scheduler)"], stub: &["UdpSocket (virtual UDP with fault injection)", "Instant::now / read timeouts (virtual clock)", "rand::thread_rng in spawn.rs (seeded)", "OS scheduling of the actor threads"], bounds: "1-4 actors + 1 outside peer, <= 8 injected datagrams, virtual horizon 0.1-2.5 s, network latency 0.2-51 ms, timer ranges 1-800 ms, step budget 40k" },
     PropInfo { id: "C18", subsystem: "s4", runs: (30_000, 3_000_000), rule: "spec half: the operation sequence of a generated history is applied to the reference object; every step is checked with its actual return and a perturbed one; harness half: seeded walks of register-harness actor systems (RegisterActor / WORegisterActor clients, servers answering each request at most once) over all network kinds", oracle: "is_valid_step(op, r) == (invoke(op) == r) and equal object state after a valid step; is_valid_history == invoking from the initial object; per client at most one outstanding request with a fresh id; the recorded tester equals a shadow tester fed with exactly the client-visible sends and accepted replies, and never reports an ill-formed history", real: S4_REAL, stub: S4_STUB, bounds: S4_BOUNDS },
     PropInfo { id: "C04", subsystem: "s2", runs: (20_000, 2_000_000), rule: "one case = one seeded fault-heavy walk of a generated actor system; every reached state, a perturbed rebuild of it (shuffled insertion order, other hasher keys, spare capacity, remove+reinsert) and its neighbours (crash flag flipped, timer/choice moved to the adjacent actor, message removed) enter a pool together with container families (sets/maps side by side, nested, Vec<Timers>, VectorClock with trailing zeros, DenseNatMap); distinct = distinct state fingerprints reached; non-trivial = walk of >= 2 steps", oracle: "equal canonical dump => equal fingerprint; different dump => different sequence of typed Hasher calls; == <=> equal dump", real: S2_REAL, stub: S2_STUB, bounds: S2_BOUNDS },
     PropInfo { id: "C06", subsystem: "s2", runs: (20_000, 2_000_000), rule: "one case = one seeded walk (<= 80 steps) of a generated actor system in lockstep with the reference stepper; distinct = distinct state fingerprints reached; non-trivial = >= 2 steps taken", oracle: "at every step the set of effective (action, successor) pairs of the real model equals the reference's, component by component (actor state, network, timers, choices, crash flags, history order)", real: S2_REAL, stub: S2_STUB, bounds: S2_BOUNDS },
@@ -81,6 +82,7 @@ pub fn run_case(prop: &str, seed: u64) -> (RunReport, Value) {
         Some("s1") => crate::s1::run_case(prop, seed),
         Some("s2") => crate::s2::run_case(prop, seed),
         Some("s4") => crate::s4::run_case(prop, seed),
+        Some("s3") => crate::s3::run_case(prop, seed),
         _ => panic!("unknown property {}", prop),
     }
 }
@@ -93,6 +95,7 @@ pub fn replay(prop: &str, scenario: &Value) -> Result<RunReport, String> {
         Some("s1") => crate::s1::replay(prop, scenario),
         Some("s2") => crate::s2::replay(prop, scenario),
         Some("s4") => crate::s4::replay(prop, scenario),
+        Some("s3") => crate::s3::replay(prop, scenario),
         _ => Err(format!("unknown property {}", prop)),
     }
 }
@@ -105,6 +108,7 @@ pub fn summary(prop: &str, scenario: &Value) -> Value {
         Some("s1") => crate::s1::summary(scenario),
         Some("s2") => crate::s2::summary(scenario),
         Some("s4") => crate::s4::summary(scenario),
+        Some("s3") => crate::s3::summary(scenario),
         _ => Value::Null,
     }
 }
@@ -117,6 +121,7 @@ pub fn shrink_candidates(prop: &str, scenario: &Value) -> Vec<Value> {
         Some("s1") => crate::s1::shrink_candidates(scenario),
         Some("s2") => crate::s2::shrink_candidates(scenario),
         Some("s4") => crate::s4::shrink_candidates(scenario),
+        Some("s3") => crate::s3::shrink_candidates(scenario),
         _ => vec![],
     }
 }
